@@ -7,7 +7,9 @@ PROPS = {
         claim="Partial, by design. Kernel-checked: for every goldmark component inside the Lean model - the renderer and all node renderers, kind "
               "dispatch, the AST mutators and Walk, the buffered write path with failing writers, heading-id probing, Reader/BlockReader and their "
               "helper loops, the inline driver loop for contract-abiding parsers, line recognisers - the model's explicit panic and fuel-exhaustion "
-              "outcomes are unreachable on EVERY input under the guard the code runs them with (17 theorems collected from the owning packages); "
+              "outcomes are unreachable on EVERY input under the guard the code runs them with (theorems collected from the owning packages); "
+              "parser/attribute.go with the heading glue (ParseAttributes from every reader offset, parseLastLineAttributes, ATX Open/Close with "
+              "WithAttribute/WithAutoHeadingID: attribute_parser_total, attribute_last_line_total, attribute_heading_total); "
               "the util transformers are total definitions with justified recursion. Searched, not proved: the composition through the block "
               "parsers and the concrete inline parsers, by Convert and Parse+Render over exhaustive short strings and mutated corpora under the "
               "configuration lattice with panic recovery and a per-input watchdog. A theorem cannot reach stack depth or running time.",
@@ -15,7 +17,7 @@ PROPS = {
              "run by the owning properties' checks); the watchdog bound (200x the median of same-size inputs, floor 2 s). Block parsers and concrete "
              "inline parsers are not yet inside the proved model.",
         technique="Lean 4 no-panic / termination theorems over the models of the components + exhaustive and random search with watchdog on the whole pipeline",
-        components=["total", "blocks", "inlines"],
+        components=["total", "blocks", "inlines", "attribute"],
         explanation="Proved per modelled component for all inputs (see theorem list); searched: every string of length <= 3 over a 22-symbol and <= 4 "
                     "over an 11-symbol Markdown-significant alphabet under 4 extreme configurations, mutated/generated/adversarial/long/deep documents under "
                     "the full lattice, both API paths, panic recovery, watchdog.",
@@ -106,18 +108,34 @@ PROPS = {
     "C12": dict(
         level="other",
         module="GM.Props.C12",
-        claim="Partial, by design. Kernel-checked, over a heap of Go slices WITH capacity (append stores in place when it fits): no sequence of "
+        claim="Partial, by design. (1) Kernel-checked theorems over a heap of Go slices WITH capacity (append stores in place when it fits): no sequence of "
               "CopyOnWriteBuffer operations and no Segment.Value call stores into any array that existed before (in particular the source), old arrays stay "
               "bit-identical, and the result aliases the input only while nothing was written; the pre-repair Segment.Value is a refuting witness. "
-              "Searched, not proved: the whole pipeline converting from a PROT_READ mapping whose spare capacity is read-only as well, so a direct store "
-              "and an in-place append onto any sub-slice both fault; util transformers on read-only inputs.",
-        note="Trusted: Lean kernel; the slice/heap model of Go's append; the harness's read-only mapping (self-tested on every run: a store and an append "
-             "must fault). Stores through unmodelled code can only be found by the search.",
-        technique="Lean 4 theorems over a slice-with-capacity heap model of CopyOnWriteBuffer and Segment.Value; read-only-memory search over the whole pipeline",
+              "(2) Kernel-checked obligation over a write-site inventory REGENERATED from the tree under test on every run (gmgen type-checks goldmark and "
+              "records every byte-slice write primitive: index store, copy, append, clear, a []byte handed to a writing library call such as "
+              "bytes.NewBuffer / utf8.EncodeRune / strconv.Append*, or to a goldmark function that writes through that parameter - 33 sites today): every "
+              "destination is memory the writing function owns (freshly allocated; the copy-on-write buffer behind its `if !copied` guard; a parameter of an "
+              "unexported function all of whose call sites are checked) or is on a reviewed one-entry allow-list. A new append / NewBuffer / index store / "
+              "copy whose destination derives from a parameter, a call result (PeekLine, Segment.Value, util.Trim*, ...), a field or a global breaks the "
+              "obligation and the check names the site. (3) Searched, not proved: the whole pipeline converting twice from a PROT_READ mapping whose spare "
+              "capacity is read-only as well, so a direct store and an in-place append onto any sub-slice both fault; util / text / id-generator functions "
+              "on read-only inputs.",
+        note="Trusted: Lean kernel; the slice/heap model of Go's append; the write-site extractor (go/types based, its origin analysis is intra-procedural "
+             "with result and written-parameter summaries of statically resolved goldmark callees; its lists of writing and of read-only library callees); "
+             "the harness's read-only mapping (self-tested on every run: a store and an append must fault). A slice parked in a struct field or reached "
+             "through an interface is never classified as owned, so a write to it is flagged; what escapes is listed in notes/status_C12.md.",
+        technique="Lean 4 theorems over a slice-with-capacity heap model of CopyOnWriteBuffer and Segment.Value; kernel-checked obligation over a regenerated, "
+                  "type-based inventory of every byte-slice write site with origin classes; read-only-memory search over the whole pipeline",
         components=["rosource"],
-        explanation="Proved for all operation sequences / all segments in the heap model; searched: every document converted (Convert, Parse+Render, "
-                    "Node.Text) from read-only memory under corner and lattice configurations, util transformers on read-only inputs, bytes compared afterwards.",
-        assumptions=["Go's append writes in place iff len+n <= cap", "a fault on the read-only mapping is reported by the runtime as a recoverable panic (SetPanicOnFault); self-tested each run"],
+        diagnose=[("GM.Spec.SliceWrites", "GM.Spec.sliceWritesReport GM.Gen.sliceWrites")],
+        explanation="Proved for all operation sequences / all segments in the heap model; the write-site inventory is re-extracted from /repo and the obligation "
+                    "'every write destination is owned or reviewed' re-checked by the kernel on every run; searched: every document (corpus, mutants, generated, "
+                    "and families directed at the write sites: duplicate / pre-normalised / explicit heading ids, attribute blocks with escapes and class/id "
+                    "merges, extension constructs, no final newline) converted twice (Convert, Parse+Render, Node.Text, segment values) from read-only memory "
+                    "under corner and lattice configurations, outputs compared; util / text / id-generator functions on read-only inputs, bytes compared afterwards.",
+        assumptions=["Go's append writes in place iff len+n <= cap", "a fault on the read-only mapping is reported by the runtime as a recoverable panic (SetPanicOnFault); self-tested each run",
+                     "the write-site extractor sees every byte-slice write primitive of the non-test, non-verif-tagged Go files and never classifies caller memory as fresh (limits in notes/status_C12.md)",
+                     "library functions on the extractor's read-only list (bytes.Equal/HasPrefix/Index*/Replace/ToLower/Repeat/Split, utf8.DecodeRune, regexp Match/Find*, io.Writer.Write, fmt.*printf) do not modify the slices they are given"],
     ),
     "C10": dict(
         level="proof",
@@ -265,13 +283,13 @@ PROPS = {
               "token-level well-formed XML (safe_xhtml_xml); the same for any renderer state with inert footnote strings (safe_wf_rc); no renderer function panics under the invariant (inv_noPanic); option propagation "
               "reaches every per-renderer config copy (propagation_complete). A proof is the right level because the property quantifies over all inputs.",
         note="Trusted: Lean kernel (+ propext, Classical.choice, Quot.sound), the gmgen translator (attribute filters, entity table), the "
-             "correspondence harness and the AST dumper. Inv of parser output is monitored on every generated document (render inv), not proved: "
+             "correspondence harness and the AST dumper. Inv of parser output is monitored on every generated document (render inv); its attribute clauses are proved for the only attribute-producing parser (package attribute: attribute_names_valid, attribute_names_distinct, attribute_heading_node_inv, attribute_setext_close_inv), the rest is not proved: "
              "the block/inline parsers are not modelled. Character representability in XML is the property's own proviso.",
         technique="Lean 4 theorems over a hand-written renderer model: structural induction into an inductive grammar (WFHtml) + soundness of the "
                   "strict tokenizer for that grammar; differential correspondence (component render); Lean-defined oracles (tokenizer + "
                   "predicates, Inv) evaluated on the real renderer's output and the real parser's trees",
-        components=["render"],
-        tie=["render"],
+        components=["render", "attribute"],
+        tie=["render", "attribute"],
         explanation="GM.Proof.RenderWF proves in two steps that render (mkRCfg o e) t is a word of the grammar WFHtml (inert text, placeholder "
                     "comment, void element, element around a well-formed body, concatenation; side conditions: tag in Spec.vocab, attribute names "
                     "allowed for the tag or data-*, lexically valid, pairwise distinct, values inert) by induction over Node/List Node with a "
@@ -360,39 +378,78 @@ PROPS = {
     "C11": dict(
         level="other",
         module="GM.Props.C11",
-        claim="Partial, by design. Kernel-checked, for the machinery every inline extension plugs into - a Lean model of the per-block inline "
-              "driver (*parser).parseBlock (trigger test and table index, flushing with MergeOrAppendTextSegment, consultation in priority order "
-              "with SetPosition restore after nil, goto retry, end-of-line text with TrimRightSpace and repair 8b9b792, soft/hard break flags) "
-              "over ABSTRACT inline parsers (trigger bytes + a script: position -> decline after moving the reader | accept n bytes): "
-              "silent_parser_irrelevant - for every well-formed block, every parser list obeying the forward-progress contract and every place "
-              "in the priority order, adding a parser that declines everywhere leaves the resolved text (bytes, break flags, parser-made nodes) "
-              "unchanged, and the loop terminates; not_consulted - every Parse call is for a byte that passed the trigger test and goes to a "
-              "parser registered for that byte's table index; first_accept_wins on a shared trigger. Searched, not proved: what each built-in "
-              "extension's own parser bodies, paragraph/AST transformers and renderer options do on documents free of its trigger characters "
-              "(component conservative: with/without each extension, alone and combined, HTML compared).",
-        note="Trusted: Lean kernel (+ propext, Classical.choice, Quot.sound); the correspondence harness; the abstraction of an inline parser as a "
-             "function of the reader position that neither reads nor mutates the parent's children (true of a parser that declines; the built-in "
-             "parsers that accept may splice nodes - link/emphasis - which is outside this model). Segment.Padding is not modelled: the harness "
-             "reports any compared block with padding as an unmet assumption. Table early exit (a paragraph without '-' is never transformed): "
-             "see parseDelimiter_needs_dash in the table package (GM.Proof.Table), cited, not re-proved here.",
-        technique="Lean 4 theorems (two-run simulation over the byte loop) over a hand-written model; differential correspondence through the public "
-                  "API with scripted probe inline parsers; metamorphic oracles on the real library",
-        components=["inlineloop", "conservative"],
-        tie=["inlineloop"],
-        explanation="Theorems in GM.Props.C11 over GM.Model.InlineLoop (helpers GM.Proof.InlineLoop: closed form of the end-of-line step, "
-                    "simulation scan_sim/pass_sim/loop_sim between a configuration and the same configuration plus a silent parser, termination "
-                    "measure). Component inlineloop builds goldmark parsers with ONLY scripted probe inline parsers (and, for explicit line "
-                    "segments, a probe block parser), parses every document over {a, space, backslash, *, LF, CR, TAB, e-acute} up to length 4 "
-                    "(6 thorough) x 9 probe sets plus random documents/scripts/segment lists, dumps each block's line segments, Text children "
-                    "(start, stop, soft, hard), markers and the Parse call log, and compares with the model. Independent oracles on the real code: "
-                    "with vs without an always-declining probe (space-triggered = Linkify's situation, or triggered by every byte; first or last "
-                    "in priority; moving the reader before nil) the concatenated text + break flags must be equal; every logged call must be at a "
-                    "trigger byte of the called probe and not at an escaped byte. Component conservative: each built-in extension on/off on "
-                    "documents free of its trigger set.",
+        claim="Partial, by design; per extension the gap between 'the loop ignores a declining parser' and 'this extension's code declines' is now closed by "
+              "theorems over regenerated facts and decline models. PROVED (kernel-checked): (1) the shared machinery - a Lean model of the per-block inline "
+              "driver (*parser).parseBlock over abstract inline parsers: silent_parser_irrelevant (a parser that declines everywhere leaves the resolved text "
+              "unchanged, any place in the priority order, loop terminates), not_consulted (every Parse call is at a byte that passed the trigger test, to a "
+              "parser registered for its table index), never_consulted (if no punctuation byte of the source is a trigger byte of q and q is not registered "
+              "for ' ', the run with q EQUALS the run without it: children, reader, call log), first_accept_wins; (2) facts REGENERATED from extension/*.go and "
+              "parser/*.go on every run (byte literals of every Trigger(), what every Extend registers with priorities, GFM's member list, "
+              "parser.DefaultInlineParsers): facts_triggers (Strikethrough in {~}, TaskList in {[}, Footnote block in {[} / inline in {! [}, DefinitionList in "
+              "{:}, Typographer in {' \" - . < >} plus {, * [}, Linkify = {space * _ ~ (}, Table/CJK none), facts_registrations, facts_gfm_members "
+              "(GFM = Linkify, Table, Strikethrough, TaskList and nothing else), facts_default_inline_table; (3) decline theorems over models of each "
+              "extension's early exit: linkify_declines (no ':', '@', 'www.' in the peeked line => nil, reader and parent untouched), footnote_open_declines and "
+              "footnote_inline_declines (no '[^' => Open returns nil; no FootnoteList => Parse returns nil on every line), footnote_transformer_without_list, "
+              "deflist_open_declines (no ':'), tasklist_declines, typographer_declines (nil at every byte other than ' \" - . < >, in particular at , * [), "
+              "table_needs_dash (a paragraph of a source without '-' is never transformed), cjk_ascii_breaks_kept (both East-Asian styles write the newline "
+              "between ASCII characters, Unicode predicates as parameters that are false on ASCII), cjk_escaped_space_inert / cjk_escaped_space_writer "
+              "(WithEscapedSpace changes neither the loop without a space-triggered parser nor the writer's output on text without backslash-space), "
+              "block_parser_not_tried (a triggered block parser is not among the candidates of a line starting with another byte); never_consulted_concrete - on the "
+              "CONCRETE inline phase (GM.Model.InlinesLoop: the default code span/link/autolink/raw HTML/emphasis parser models, delimiter and label "
+              "processing; GM.Model.InlinesLoopX = the same loop over an open trigger table, proved equal to it on the default table) one more inline parser, "
+              "whatever its Parse does, added at any place of any table entry leaves parseBlock's result (tree or panic) unchanged on every source without "
+              "its trigger bytes, for every well-formed padding-free line list; (4) compositions ext_strikethrough/tasklist_conservative_concrete (the same with "
+              "the regenerated trigger bytes), "
+              "ext_strikethrough/tasklist_conservative_inline (regenerated triggers + never_consulted: runs equal on sources without '~' / '['), "
+              "ext_typographer/linkify/footnote_conservative_inline (regenerated triggers + decline model as script + silent_parser_irrelevant: same resolved "
+              "text on every well-formed block of a source without the extension's characters). SEARCHED, not proved (component conservative: with/without "
+              "each extension, alone and combined, HTML compared; GFM vs members): the composition with the block phase and the renderer - that a block parser "
+              "returning nil leaves the block structure alone, that node renderers registered for the extension's node kinds are inert without such nodes, "
+              "Table's AST transformer; for the three CONSULTED parsers (Linkify, Typographer, footnote) the composed theorem is over the abstract loop only "
+              "(no concrete analogue of silent_parser_irrelevant).",
+        note="Trusted: Lean kernel (+ propext, Classical.choice, Quot.sound); the gmgen translator (go/ast; what it cannot see: registrations made through "
+             "helper functions or variables other than m.Parser()/m.Renderer().AddOptions, Trigger() bodies that are not a single return of a literal - "
+             "both are emitted as 'not understood' and fail facts_understood); the correspondence harness. The abstract inline parser neither reads nor mutates the "
+             "parent's children: true of a parser that declines (checked on every nil by extdecline's oracles), so accepting Linkify (which flushes one byte "
+             "into the parent) is outside the composed theorems - they speak about trigger-free sources only. Segment.Padding is not modelled in the loop: "
+             "blocks with padding are skipped by op loop and reported as an unmet assumption by inlineloop. Linkify's two URL regexps are not modelled: lines that "
+             "pass a bytes.HasPrefix guard (http: https: ftp: www.) are answered 'regexp' by model and harness alike; typographer quote handling likewise "
+             "('quote'). Default LinkifyConfig / default typographic substitutions only.",
+        technique="Lean 4 theorems (two-run simulation over the byte loop; run equality for unconsulted parsers; per-extension decline theorems; decide over facts "
+                  "regenerated from the Go source by a go/ast translator) over hand-written models; function-level differential correspondence driving the real "
+                  "Parse/Open/Transform/softLineBreak through the public API; the real extension parsers inside the real loop vs the loop model; metamorphic "
+                  "oracles on the real library",
+        components=["inlineloop", "extdecline", "table", "conservative"],
+        tie=["inlineloop", "extdecline", "table"],
+        explanation="Theorems in GM.Props.C11 over GM.Model.InlineLoop (helpers GM.Proof.InlineLoop, InlineLoopUnused), GM.Model.ExtDecline/ExtLoop (helpers "
+                    "GM.Proof.ExtDecline, ExtLoop, ExtWriter), GM.Model.InlinesLoop/InlinesLoopX (helper GM.Proof.InlinesLoopX, reusing the loop invariant of the "
+                    "totality proof GM.Proof.InlinesLoopTotal/InlinesLink; the concrete model itself is tied by component inlines, run under C01/C02/C05, not "
+                    "here), GM.Model.Table, GM.Model.Writer and the regenerated GM.Gen.ExtFacts (obligations in GM.Spec.ExtFacts). Component inlineloop: goldmark parsers with ONLY scripted probe inline parsers, every document over 8 symbols up to "
+                    "length 4 (6 thorough) x 9 probe sets + random documents/scripts/segment lists, children and call log compared with the loop model; oracles "
+                    "silent-parser-changes-text, parser-consulted-off-trigger. Component extdecline: the real Trigger() of all 23 parser types vs the regenerated "
+                    "literals (oracle: inside the characters C11 allows); extension.NewLinkifyParser/NewFootnoteParser/NewFootnoteBlockParser/"
+                    "NewDefinitionListParser/NewDefinitionDescriptionParser/NewTaskCheckBoxParser/NewTypographerParser driven with a real block reader, context "
+                    "(link-label state entered through the real link parser, footnote list built through the real block parser's Open+Close) and parent on "
+                    "every line over per-function alphabets up to length 4-5 (5-6 thorough) x context flags + every byte value in key positions + random lines, "
+                    "result (nil/node, bytes advanced, parent touched) compared with the decline models; the footnote AST transformer on corpus documents; "
+                    "html.VerifSoftLineBreak on all 128x128 ASCII pairs x 3 styles + rune samples with the real Unicode predicates passed to the model, and a "
+                    "hand-built Text(soft)+Text paragraph through html.NewRenderer; op loop: the REAL Linkify/Typographer/footnote inline parser as the only "
+                    "inline parser inside the real parseBlock (every call logged by a forwarding wrapper) vs the loop model instantiated with regenerated "
+                    "triggers + decline model. Independent oracles (property clauses on the real code): a parser must return nil without touching parent or "
+                    "(Linkify, Typographer, TaskList) reader on a line without its characters; resolved text of every block equal with and without the real "
+                    "parser on trigger-free documents; ASCII pairs never suppress a break; ASCII paragraphs render identically under every East-Asian style; the "
+                    "escaped-space writer equals the default writer on text without backslash-space (op wr, also compared with GM.Model.Writer). Component table "
+                    "(C17's package: the real table paragraph transformer vs GM.Model.Table) is run here because table_needs_dash is a theorem about that model. "
+                    "Component conservative: each built-in extension on/off on documents free of its trigger set; GFM vs its members.",
         assumptions=["block lines are well-formed: non-empty segments inside the source, increasing, every line but the last ends with its newline, padding 0 "
                      "(what the built-in block parsers produce; checked on every compared block)",
                      "an inline parser that returns a node has advanced the reader by >= 1 byte; a parser that returns nil may leave the reader anywhere",
-                     "the extensions' own code on trigger-free input is covered by search (conservative), not by proof"],
+                     "a block parser's Close runs only after its Open returned a node (so no FootnoteList exists in a document without '[^'), and a block parser "
+                     "that returns nil from Open without moving the reader leaves the block structure as it is (contract of openBlocks; covered by search)",
+                     "no ASCII rune is East-Asian wide/F/W/H or space-discarding in util's Unicode tables (checked exhaustively on every run: clause "
+                     "assumption:ascii-runes-are-narrow)",
+                     "the rendering of the node kinds an extension adds, its node renderers and Table's AST transformer on documents without such nodes are "
+                     "covered by search (conservative), not by proof"],
     ),
     "C18": dict(
         level="proof",
